@@ -8,12 +8,14 @@ default and every per-topic mesh parameter set, `history_gossip ≤ history_leng
 `max_transmit_size ≥ 100`; consequently a behaviour built from an accepted config never panics in
 `heartbeat` for any set of peers.
 
-`build` is the model of the REPAIRED function (finding C34-build-validates-only-sized-topics);
-`buildBuggy` is the function as it was, kept for the counterexample theorems.
+`build` is the model of `ConfigBuilder::build` AS IT IS.  The unchanged code violates the static half
+of the property (known finding C34-build-validates-only-sized-topics, recorded — not repaired,
+because the only complete repair invalidates an existing crate test that depends on the defect):
+the full statement is kept as `C34.full_statement` and refuted by
+`C34.build_validates_only_sized_topics_counterexample`; the strongest true part is proved as
+`C34.build_sound_partial`.
 -/
 namespace C34
-
-deriving instance DecidableEq for Except
 
 /-! ## `build` -/
 
@@ -30,96 +32,80 @@ theorem buildTail_ok {b : Builder} {c : Config} (h : buildTail b = .ok c) :
         subst h
         refine ⟨rfl, by omega, by assumption, by simp_all⟩
 
-theorem ordered_half_valid (p : Params) (h1 : p.ordered = true) (h2 : ¬ p.outMin > p.n / 2) : p.valid := by
-  unfold Params.ordered at h1
-  unfold Params.valid
-  simp only [Bool.and_eq_true, decide_eq_true_eq] at h1
-  omega
-
-theorem valid_ordered_half (p : Params) (h : p.valid) : p.ordered = true ∧ ¬ p.outMin > p.n / 2 := by
-  unfold Params.valid at h
-  unfold Params.ordered
-  simp only [Bool.and_eq_true, decide_eq_true_eq]
-  omega
-
-/-- **C34.build_sound** — whatever the builder state (so: after every sequence of setter calls),
-a config returned by `build` is the builder's config and is valid: the default and EVERY
-per-topic parameter set satisfy the inequalities, `history_gossip ≤ history_length`, the default
-and every per-topic `max_transmit_size` is at least 100. -/
-theorem build_sound (b : Builder) (c : Config) (h : build b = .ok c) : c = b ∧ c.valid := by
-  unfold build at h
-  split at h
-  · cases h
-  · rename_i hm
-    split at h
-    · cases h
-    · rename_i ho
-      split at h
-      · cases h
-      · rename_i hh
-        obtain ⟨rfl, hg, _, _⟩ := buildTail_ok h
-        refine ⟨rfl, ?_⟩
-        simp only [Bool.or_eq_true, decide_eq_true_eq, List.any_eq_true, not_or, not_exists, not_and,
-          Bool.not_eq_true'] at hm ho hh
-        simp only [Builder.paramSets, List.mem_cons, List.mem_map] at ho hh
-        have hvalid : ∀ p, (p = c.dflt ∨ ∃ e ∈ c.topics, e.2 = p) → p.valid := by
-          intro p hp
-          have h1 := ho p hp
-          have h2 := hh p hp
-          apply ordered_half_valid p
-          · simpa using h1
-          · simpa using h2
-        refine ⟨hvalid _ (Or.inl rfl), fun e he => hvalid _ (Or.inr ⟨e, he, rfl⟩), hg, by omega, ?_⟩
-        intro e he
-        have := hm.2 e he
-        simp at this
-        omega
-
-/-- the same, spelled out for builder call sequences of any length -/
-theorem build_sound_sequences (l : List Setter) (c : Config)
-    (h : build (Builder.init.applyAll l) = .ok c) : c.valid :=
-  (build_sound _ c h).2
-
-/-- **C34.build_ok_iff** — `build` accepts exactly the valid builder states with a non-zero
-unsubscribe backoff and a well-formed protocol id (nothing valid is rejected). -/
-theorem build_ok_iff (b : Builder) :
-    build b = .ok b ↔ (Config.valid b ∧ b.ubMillis ≠ 0 ∧ b.invalidProtocol = false) := by
-  constructor
-  · intro h
-    have hs := build_sound b b h
-    unfold build at h
-    split at h
-    · cases h
-    · split at h
-      · cases h
-      · split at h
-        · cases h
-        · obtain ⟨_, _, h3, h4⟩ := buildTail_ok h
-          exact ⟨hs.2, h3, h4⟩
-  · rintro ⟨⟨hd, ht, hg, hm, hmt⟩, hu, hp⟩
-    unfold build
-    have h1 : ¬ ((decide (b.mts < 100) || b.mtsT.any (fun e => decide (e.2 < 100))) = true) := by
-      simp only [Bool.or_eq_true, decide_eq_true_eq, List.any_eq_true, not_or, not_exists, not_and]
-      refine ⟨by omega, fun e he => ?_⟩
-      have := hmt e he
+/-- the loop body passes a topic exactly when its transmit size is ≥ 100 and its parameter set valid -/
+theorem topicErr_none_iff (b : Builder) (t : Nat) :
+    topicErr b t = none ↔ (100 ≤ b.mtsFor t ∧ (b.paramsFor t).valid) := by
+  unfold topicErr Params.valid Params.ordered
+  by_cases h1 : b.mtsFor t < 100
+  · simp [h1]; omega
+  · simp only [h1, ↓reduceIte]
+    by_cases h2 : (decide ((b.paramsFor t).outMin ≤ (b.paramsFor t).low) &&
+        decide ((b.paramsFor t).low ≤ (b.paramsFor t).n) && decide ((b.paramsFor t).n ≤ (b.paramsFor t).high)) = true
+    · simp only [h2, Bool.not_true, Bool.false_eq_true, ↓reduceIte]
+      simp only [Bool.and_eq_true, decide_eq_true_eq] at h2
+      by_cases h3 : (b.paramsFor t).outMin * 2 > (b.paramsFor t).n
+      · simp [h3]; omega
+      · simp [h3]; omega
+    · simp only [h2, Bool.not_false, ↓reduceIte]
+      simp only [Bool.and_eq_true, decide_eq_true_eq] at h2
+      simp
       omega
-    have hall : ∀ p ∈ b.paramSets, p.valid := by
-      intro p hp
-      simp only [Builder.paramSets, List.mem_cons, List.mem_map] at hp
-      rcases hp with rfl | ⟨e, he, rfl⟩
-      · exact hd
-      · exact ht e he
-    have h2 : ¬ (b.paramSets.any (fun p => !p.ordered) = true) := by
-      simp only [List.any_eq_true, not_exists, not_and, Bool.not_eq_true']
-      intro p hp
-      simpa using (valid_ordered_half p (hall p hp)).1
-    have h3 : ¬ (b.paramSets.any (fun p => decide (p.outMin > p.n / 2)) = true) := by
-      simp only [List.any_eq_true, not_exists, not_and, decide_eq_true_eq]
-      intro p hp
-      exact (valid_ordered_half p (hall p hp)).2
-    rw [if_neg h1, if_neg h2, if_neg h3]
+
+theorem loopErrs_nil_iff (b : Builder) : loopErrs b = [] ↔ ∀ e ∈ b.mtsT, topicErr b e.1 = none := by
+  unfold loopErrs
+  simp [List.filterMap_eq_nil_iff]
+
+/-- what `build` does check: every topic WITH a `max_transmit_size` entry has a size ≥ 100 and a valid
+parameter set (own or default), `history_gossip ≤ history_length`, non-zero backoff, protocol ok -/
+def Config.checked (c : Config) : Prop :=
+  (∀ e ∈ c.mtsT, 100 ≤ c.mtsFor e.1 ∧ (c.paramsFor e.1).valid) ∧ c.histGossip ≤ c.histLen ∧
+  c.ubMillis ≠ 0 ∧ c.invalidProtocol = false
+
+/-- **C34.build_sound_partial** — the strongest true part of "every accepted config is valid" for the
+code as it is: for every builder state (hence after every setter sequence) and every iteration
+order, a config returned by `build` is the builder's config and satisfies the property's
+inequalities FOR EVERY TOPIC THAT HAS A `max_transmit_size` ENTRY, plus `history_gossip ≤
+history_length`.  MISSING w.r.t. the full statement: the default parameter set, the default
+transmit size, and per-topic parameter sets of topics without a size entry are not validated. -/
+theorem build_sound_partial (b : Builder) (o : Option Err) (c : Config) (h : build b o = .ok c) :
+    c = b ∧ c.checked := by
+  unfold build at h
+  cases hl : loopErrs b with
+  | cons e es =>
+    rw [hl] at h
+    simp only at h
+    cases o with
+    | none => cases h
+    | some e' => simp only at h; split at h <;> cases h
+  | nil =>
+    rw [hl] at h
+    simp only at h
+    cases ht : buildTail b with
+    | error e => rw [ht] at h; cases h
+    | ok c' =>
+      rw [ht] at h
+      simp only [BuildRes.ok.injEq] at h
+      subst h
+      obtain ⟨rfl, hg, hu, hp⟩ := buildTail_ok ht
+      refine ⟨rfl, ?_, hg, hu, hp⟩
+      intro e he
+      exact (topicErr_none_iff _ _).1 ((loopErrs_nil_iff _).1 hl e he)
+
+/-- **C34.build_ok_iff_partial** — `build` accepts EXACTLY the builder states that pass the checks it
+does make (whatever the iteration order) -/
+theorem build_ok_iff_partial (b : Builder) (o : Option Err) : build b o = .ok b ↔ Config.checked b := by
+  constructor
+  · intro h; exact (build_sound_partial b o b h).2
+  · rintro ⟨hs, hg, hu, hp⟩
+    have hl : loopErrs b = [] := (loopErrs_nil_iff b).2 (fun e he => (topicErr_none_iff _ _).2 (hs e he))
+    unfold build
+    rw [hl]
+    simp only
     unfold buildTail
     rw [if_neg (by omega), if_neg hu, if_neg (by simp [hp])]
+
+/-- THE static half of the property, at full strength — FALSE for the code as it is -/
+def full_statement : Prop := ∀ (b : Builder) (o : Option Err) (c : Config), build b o = .ok c → c.valid
 
 /-! ## heartbeat: no panic under a valid parameter set -/
 
@@ -286,13 +272,27 @@ theorem heartbeat_total (c : Config) (hc : c.valid) (h : HbCfg) (blocks : List (
   cases ha : hbTopics c h blocks <;> cases hb : gossipSlice c blocks.length <;>
     simp_all [Res.isPanic]
 
-/-- **C34.accepted_never_panics** — THE property, both halves chained: a config returned by
-`build` (for any builder state, i.e. after any sequence of setter calls) is valid and its
-heartbeats never panic. -/
-theorem accepted_never_panics (b : Builder) (c : Config) (hb : build b = .ok c)
-    (h : HbCfg) (blocks : List (Nat × Obs × Orc)) :
-    c.valid ∧ (heartbeat c h blocks).isPanic = false :=
-  ⟨(build_sound b c hb).2, heartbeat_total c (build_sound b c hb).2 h blocks⟩
+/-- **C34.valid_accepted** — no valid config is rejected: a valid builder state with a non-zero
+unsubscribe backoff and a well-formed protocol id builds `Ok` -/
+theorem valid_accepted (b : Builder) (o : Option Err) (hv : Config.valid b) (hu : b.ubMillis ≠ 0)
+    (hp : b.invalidProtocol = false) : build b o = .ok b := by
+  refine (build_ok_iff_partial b o).2 ⟨?_, hv.2.2.1, hu, hp⟩
+  intro e _
+  refine ⟨?_, paramsFor_valid b hv e.1⟩
+  unfold Builder.mtsFor
+  cases hl : lookup b.mtsT e.1 with
+  | none => exact hv.2.2.2.1
+  | some v =>
+    obtain ⟨e', he', rfl⟩ := lookup_mem _ _ _ hl
+    exact hv.2.2.2.2 e' he'
+
+/-- **C34.accepted_valid_never_panics** — the dynamic half, as far as it is true of the code as it
+is: a config returned by `build` that IS valid never makes the heartbeat panic (an accepted
+invalid one can: see the counterexample below). -/
+theorem accepted_valid_never_panics (b : Builder) (o : Option Err) (c : Config) (_hb : build b o = .ok c)
+    (hv : c.valid) (h : HbCfg) (blocks : List (Nat × Obs × Orc)) :
+    (heartbeat c h blocks).isPanic = false :=
+  heartbeat_total c hv h blocks
 
 /-- **C34.heartbeat_panics_if_invalid** — validity matters: each of the three orderings the
 heartbeat relies on has a witness where the heartbeat panics when it is violated
@@ -307,22 +307,22 @@ theorem heartbeat_panics_if_invalid :
         [(0, ⟨0, 0, 0, 0, 0, 0⟩, ⟨0, [], false, 0, 0⟩)]).isPanic = true := by
   refine ⟨by decide, by decide, by decide⟩
 
-/-! ## the defect of the unrepaired `build` -/
+/-! ## the defect of `build` -/
 
-/-- **C34.build_validates_only_sized_topics_buggy_counterexample** — the pre-fix `build` accepts
+/-- **C34.build_validates_only_sized_topics_counterexample** — `build` accepts
 `ConfigBuilder::default().mesh_n_high(3)` (default parameter set 6/5/3/2: `mesh_n > mesh_n_high`),
 `…max_transmit_size(1)`, `…mesh_outbound_min(6)` and a per-topic `mesh_n_low = 100`: none is valid,
 and the heartbeat of a behaviour built from the first one panics with three mesh peers. -/
-theorem build_validates_only_sized_topics_buggy_counterexample :
-    (buildBuggy (Builder.init.apply (.high 3)) = .ok (Builder.init.apply (.high 3)) ∧
+theorem build_validates_only_sized_topics_counterexample :
+    (build (Builder.init.apply (.high 3)) none = .ok (Builder.init.apply (.high 3)) ∧
       ¬ Config.valid (Builder.init.apply (.high 3)) ∧
       (heartbeat (Builder.init.apply (.high 3)) ⟨4, false, 2⟩
         [(0, ⟨1, 2, 0, 0, 0, 9⟩, ⟨0, [], false, 0, 0⟩)]).isPanic = true) ∧
-    (buildBuggy (Builder.init.apply (.mts 1)) = .ok (Builder.init.apply (.mts 1)) ∧
+    (build (Builder.init.apply (.mts 1)) none = .ok (Builder.init.apply (.mts 1)) ∧
       ¬ Config.valid (Builder.init.apply (.mts 1))) ∧
-    (buildBuggy (Builder.init.apply (.out 6)) = .ok (Builder.init.apply (.out 6)) ∧
+    (build (Builder.init.apply (.out 6)) none = .ok (Builder.init.apply (.out 6)) ∧
       ¬ Config.valid (Builder.init.apply (.out 6))) ∧
-    (buildBuggy (Builder.init.apply (.lowT 0 100)) = .ok (Builder.init.apply (.lowT 0 100)) ∧
+    (build (Builder.init.apply (.lowT 0 100)) none = .ok (Builder.init.apply (.lowT 0 100)) ∧
       ¬ Config.valid (Builder.init.apply (.lowT 0 100))) := by
   refine ⟨⟨by decide, ?_, by decide⟩, ⟨by decide, ?_⟩, ⟨by decide, ?_⟩, ⟨by decide, ?_⟩⟩
   · intro h; exact absurd h.1 (by decide)
@@ -330,14 +330,18 @@ theorem build_validates_only_sized_topics_buggy_counterexample :
   · intro h; exact absurd h.1 (by decide)
   · intro h; exact absurd (h.2.1 (0, ⟨6, 100, 12, 2⟩) (by decide)) (by decide)
 
-/-- the repaired `build` rejects all four -/
-theorem build_rejects_counterexamples :
-    build (Builder.init.apply (.high 3)) = .error .MeshParametersInvalid ∧
-    build (Builder.init.apply (.mts 1)) = .error .MaxTransmissionSizeTooSmall ∧
-    build (Builder.init.apply (.out 6)) = .error .MeshParametersInvalid ∧
-    build (Builder.init.apply (.out 4)) = .error .MeshOutboundInvalid ∧
-    build (Builder.init.apply (.lowT 0 100)) = .error .MeshParametersInvalid := by
-  refine ⟨by decide, by decide, by decide, by decide, by decide⟩
+/-- the full statement does not hold of the code as it is -/
+theorem full_statement_false : ¬ full_statement := by
+  intro h
+  exact build_validates_only_sized_topics_counterexample.1.2.1
+    (h _ none _ build_validates_only_sized_topics_counterexample.1.1)
+
+/-- the same invalid parameter sets ARE rejected once the topic has a `max_transmit_size` entry -/
+theorem sized_topics_are_checked :
+    build (Builder.init.applyAll [.lowT 0 100, .mtsT 0 200]) (some .MeshParametersInvalid) = .err .MeshParametersInvalid ∧
+    build (Builder.init.applyAll [.mtsT 0 99]) (some .MaxTransmissionSizeTooSmall) = .err .MaxTransmissionSizeTooSmall ∧
+    build (Builder.init.applyAll [.out 4, .mtsT 1 100]) (some .MeshOutboundInvalid) = .err .MeshOutboundInvalid := by
+  refine ⟨by decide, by decide, by decide⟩
 
 /-! ## the Spec accepts the model (so `impl = model` ⇒ Spec holds on impl), and means what it says -/
 
@@ -352,11 +356,10 @@ theorem mtsFor_ge (c : Config) (hc : c.valid) (t : Nat) : 100 ≤ c.mtsFor t := 
     obtain ⟨e, he, rfl⟩ := lookup_mem _ _ _ hl
     exact hc.2.2.2.2 e he
 
-/-- **C34.spec_build** — the Spec accepts what the model's `build` returns, for every alphabet of
-topics the getters are read for -/
-theorem spec_build (b : Builder) (c : Config) (h : build b = .ok c) (alphabet : List Nat) :
+/-- **C34.spec_build_valid** — the Spec accepts every VALID config the model's `build` returns, for
+every alphabet of topics the getters are read for -/
+theorem spec_build_valid (c : Config) (hc : c.valid) (alphabet : List Nat) :
     specBuild (c.getters alphabet) = true := by
-  have hc := (build_sound b c h).2
   unfold specBuild Builder.getters
   simp only [Bool.and_eq_true, decide_eq_true_eq, List.all_eq_true, List.mem_map]
   refine ⟨⟨⟨⟨hc.1, ?_⟩, hc.2.2.1⟩, hc.2.2.2.1⟩, ?_⟩
@@ -364,6 +367,13 @@ theorem spec_build (b : Builder) (c : Config) (h : build b = .ok c) (alphabet : 
     exact paramsFor_valid c hc t
   · rintro s ⟨t, _, rfl⟩
     exact mtsFor_ge c hc t
+
+/-- a valid accepted config is classified `valid` (Spec verdict `ok`), whatever the builder state -/
+theorem classify_valid (b : Builder) (c : Config) (hc : c.valid) (alphabet : List Nat) :
+    classify b alphabet (c.getters alphabet) = .valid := by
+  unfold classify
+  rw [spec_build_valid c hc alphabet]
+  rfl
 
 /-- **C34.spec_build_sound** — a getter record accepted by the Spec satisfies the inequalities of
 the property for the default set and for every topic it was read for -/
@@ -374,21 +384,20 @@ theorem spec_build_sound (g : Getters) (h : specBuild g = true) :
   simp only [Bool.and_eq_true, decide_eq_true_eq, List.all_eq_true] at h
   exact ⟨h.1.1.1.1, h.1.1.1.2, h.1.1.2, h.1.2, h.2⟩
 
-/-- **C34.spec_hb** — the heartbeat Spec (no panic once `build` accepted) holds on the model -/
-theorem spec_hb (b : Builder) (c : Config) (hb : build b = .ok c) (h : HbCfg)
-    (blocks : List (Nat × Obs × Orc)) : specHb true (heartbeat c h blocks) = true := by
-  unfold specHb
-  rw [(accepted_never_panics b c hb h blocks).2]
+/-- **C34.spec_hb** — the heartbeat Spec holds on the model for every valid config -/
+theorem spec_hb (c : Config) (hc : c.valid) (h : HbCfg) (blocks : List (Nat × Obs × Orc)) (cls : Option Class) :
+    specHbKey cls (heartbeat c h blocks).isPanic = "ok" := by
+  rw [heartbeat_total c hc h blocks]
   rfl
 
 /-! non-vacuity -/
-example : build Builder.init = .ok Builder.init := by decide
+example : build Builder.init none = .ok Builder.init := by decide
 example : Config.valid Builder.init := by
   unfold Config.valid
   refine And.intro (by decide) (And.intro ?_ (And.intro (by decide) (And.intro (by decide) ?_)))
   · intro e he; cases he
   · intro e he; cases he
-example : build (Builder.init.applyAll [.cfgT 1 ⟨2, 1, 3, 1⟩, .mtsT 2 100, .n 4, .low 4, .out 2]) =
+example : build (Builder.init.applyAll [.cfgT 1 ⟨2, 1, 3, 1⟩, .mtsT 2 100, .n 4, .low 4, .out 2]) none =
     .ok (Builder.init.applyAll [.cfgT 1 ⟨2, 1, 3, 1⟩, .mtsT 2 100, .n 4, .low 4, .out 2]) := by decide
 /-- a heartbeat that goes through "mesh high" with an outbound floor, on a valid config -/
 example : heartbeat (Builder.init.applyAll [.cfgT 0 ⟨2, 1, 3, 1⟩]) ⟨4, true, 2⟩
@@ -396,15 +405,17 @@ example : heartbeat (Builder.init.applyAll [.cfgT 0 ⟨2, 1, 3, 1⟩]) ⟨4, tru
 
 end C34
 
-#print axioms C34.build_sound
-#print axioms C34.build_sound_sequences
-#print axioms C34.build_ok_iff
+#print axioms C34.build_sound_partial
+#print axioms C34.build_ok_iff_partial
+#print axioms C34.valid_accepted
 #print axioms C34.hbTopic_total
 #print axioms C34.heartbeat_total
-#print axioms C34.accepted_never_panics
+#print axioms C34.accepted_valid_never_panics
 #print axioms C34.heartbeat_panics_if_invalid
-#print axioms C34.build_validates_only_sized_topics_buggy_counterexample
-#print axioms C34.build_rejects_counterexamples
-#print axioms C34.spec_build
+#print axioms C34.build_validates_only_sized_topics_counterexample
+#print axioms C34.full_statement_false
+#print axioms C34.sized_topics_are_checked
+#print axioms C34.spec_build_valid
+#print axioms C34.classify_valid
 #print axioms C34.spec_build_sound
 #print axioms C34.spec_hb
